@@ -51,7 +51,8 @@ PROBES = ["unset_below_non_default_ancestor", "set_on_sibling", "invalid_value_r
           "iterator_rerender_reveals_method", "file_backed_iterm2_render",
           "style_subclass_with_mixin", "animated_iterm2_direct_render",
           "subclass_redeclares_render_methods", "method_changed_under_live_iterator",
-          "subclass_with_derived_metaclass", "non_string_method_on_instance"]
+          "subclass_with_derived_metaclass", "non_string_method_on_instance",
+          "instance_rerendered_after_class_wide_change"]
 COMPONENTS = {
     "real": ["BaseImage.set_render_method (class and instance forms)", "ImageMeta.forced_support",
              "ITerm2ImageMeta + ClassInstanceProperty / ClassProperty descriptors",
@@ -539,6 +540,26 @@ def run(ch, ctx, fault=None):
                 desc = "%s %s%s" % ("draw" if via_draw else "render", who,
                                     " with method=%s" % override if override else "")
                 render_check(n, obj, own, desc, override, via_draw)
+                if override is None and "method" not in own and ch.bool("class_changes_around", 0.3):
+                    # the class-wide method is set (in some letter case), the instance rendered,
+                    # the class-wide method changed, the same instance rendered again: an
+                    # instance without a method of its own follows its class every time
+                    a = n
+                    while a.parent is not None and a.parent.family == n.family \
+                            and ch.bool("higher", 0.4):
+                        a = a.parent
+                    first = ch.pick("first_method", ("WHOLE", "Whole", "LINES", "Lines", "whole"))
+                    second = ch.pick("second_method", ("lines", "LINES", "Lines")
+                                     if first.lower() == "whole" else ("whole", "WHOLE", "Whole"))
+                    if {"lines", "whole"} <= set(a.accepted_methods()):
+                        for val in (first, second):
+                            a.cls.set_render_method(val)
+                            a.own["method"] = val.lower()
+                            d2 = "%s.set_render_method(%r); render %s again" % (a.name, val, who)
+                            render_check(n, obj, own, d2)
+                            ctx.op(d2)
+                            key.append(d2)
+                        ctx.probe("instance_rerendered_after_class_wide_change")
             ctx.op(desc)
             key.append(desc)
             read_all(desc)
